@@ -1,5 +1,5 @@
 (* C10 - reserved feature bits are refused; enabled ones work (leaf functions). *)
-From PS Require Import Base MiscDefs SpecDefs MiscProofs ApiDefs SpecApi ApiLemmas RefineProofs ApiTheorems.
+From PS Require Import Base MiscDefs SpecDefs MiscProofs ApiDefs SpecApi ApiLemmas RefineProofs ApiTheorems HeldProofs.
 From PS.Gen Require Import Consts Langs.
 Local Open Scope N_scope.
 
@@ -59,3 +59,22 @@ Proof.
   rewrite forallb_forall in T. specialize (T mask (GFProofs.in_range 8 mask Hm)).
   rewrite forallb_forall in T. specialize (T f (GFProofs.in_range 32 f Hf)). apply Bool.eqb_prop, T.
 Qed.
+
+(* a seed HELD by the caller does not depend on what is enabled later: from two states that differ only in the
+   enabled set, every history of calls that use held seeds (encode, store, crypt, keygen, the three queries, free)
+   gives the same outputs and the same calls of the dependencies, and ends in states that again differ only in that
+   set.  (The four constructors are where the set is read: C10_create_gate, C10_entry_points.) *)
+Theorem C10_held_seeds_independent_of_enabled_set : forall sgn ops st r, forallb uses_held ops = true ->
+  run sgn langs (with_reserved r st) ops =
+  (with_reserved r (fst (run sgn langs st ops)), snd (run sgn langs st ops)).
+Proof. exact (fun sgn => held_run_independent sgn langs). Qed.
+Print Assumptions C10_held_seeds_independent_of_enabled_set.
+
+(* in particular a call of polyseed_enable_features between obtaining a seed and using it changes no result *)
+Theorem C10_enable_then_use : forall sgn st m ops, forallb uses_held ops = true ->
+  snd (run sgn langs (fst (fst (step sgn langs st (OpEnable m)))) ops) = snd (run sgn langs st ops).
+Proof. exact (fun sgn => enable_then_use sgn langs). Qed.
+Print Assumptions C10_enable_then_use.
+
+Example C10_held_ops : forallb uses_held [OpCrypt 0 []; OpEncode 0 0%nat 1; OpKeygen 0 0 32; OpStore 0; OpGetFeature 0 7] = true.
+Proof. reflexivity. Qed.
